@@ -272,6 +272,7 @@ class Ctx:
         def one(shard):
             start = 0
             resumes = 0
+            slow = 0
             results = []
             while True:
                 prog = os.path.join(self.scratch, "%s-%d.progress" % (label, shard))
@@ -306,9 +307,30 @@ class Ctx:
                 if last is None or resumes >= max_crash_resumes:
                     break
                 if rc == 87:
-                    # the case watchdog fired (a hang): the rest of this shard is not run, the verdict is a
-                    # violation (if the hang repeats when the case is re-run alone) or inconclusive anyway
-                    break
+                    # the case watchdog fired: re-run that case alone, once. A hang that repeats is a violation and
+                    # ends the shard; a case that finishes alone was merely slow on a loaded machine - its result is
+                    # taken from the solo run and the shard goes on behind it.
+                    solo = base + ["--only", str(last)]
+                    ee2 = dict(ee)
+                    try:
+                        wd = max(3 * int(ee.get("VERIF_CASE_WATCHDOG", "0") or 0), 300)
+                    except ValueError:
+                        wd = 300
+                    ee2["VERIF_CASE_WATCHDOG"] = str(wd)
+                    try:
+                        r2 = subprocess.run(solo, stdout=subprocess.PIPE, stderr=subprocess.PIPE, env=ee2, timeout=wd + 120)
+                        results[-1]["solo"] = dict(again=r2.returncode == 87, rc=r2.returncode, cmd=solo,
+                                                   out=r2.stdout.decode("utf-8", "replace"), err=r2.stderr.decode("utf-8", "replace"))
+                    except subprocess.TimeoutExpired:
+                        results[-1]["solo"] = dict(again=True, rc=87, cmd=solo, out="", err="")
+                    if results[-1]["solo"]["again"]:
+                        break
+                    slow += 1
+                    if slow > 40:
+                        results[-1]["gave_up"] = True     # a machine this loaded decides nothing
+                        break
+                    start = last + 1
+                    continue
                 resumes += 1
                 start = last + 1
             return shard, results
@@ -381,30 +403,21 @@ class Ctx:
             self.violation_or_inconclusive_timeout(label, res, rcmd)
             return
         if res["rc"] == 87 and "HX-WATCHDOG" in res["err"] and res["last"] is not None:
-            # a case exceeded its wall-clock budget: re-run it alone once; a repeated hang is a violation,
-            # otherwise the firing is inconclusive (loaded machine)
             self.count("case_watchdog_fired")
-            if ("hang|%s" % label) in self._viol_seen or self.match_finding("hang|%s" % label):
-                self.violation("hang|%s" % label, "case %s did not finish within its wall-clock budget" % res["last"],
-                               {"argv": rcmd, "exit": 87})
-                return
-            try:
-                e2 = dict(os.environ); e2.update(SAN_ENV)
-                r2 = subprocess.run(rcmd, stdout=subprocess.PIPE, stderr=subprocess.PIPE, env=e2, timeout=400)
-                again = r2.returncode == 87
-                err2 = r2.stderr.decode("utf-8", "replace")
-            except subprocess.TimeoutExpired:
-                again, err2 = True, ""
-            if again:
+            solo = res.get("solo")
+            if solo is None or solo["again"]:
                 self.violation("hang|%s" % label, "case %s did not finish within its wall-clock budget, twice (alone the second "
                                "time)" % res["last"], {"argv": rcmd, "exit": 87})
             else:
-                rep2 = parse_sanitizer(err2)
-                if rep2:
-                    for key, excerpt in rep2:
-                        self.violation(key, excerpt, {"argv": rcmd})
-                else:
-                    self.inconclusive.append("%s: case %s hit the case watchdog once and finished when re-run alone" % (label, res["last"]))
+                # finished alone: that run is the case's result (sanitizer reports, violations, counters)
+                if len(self.notes) < 20:
+                    self.notes.append("%s: case %s exceeded the per-case wall-clock budget once (loaded machine) and finished "
+                                      "when re-run alone; its result comes from the solo run" % (label, res["last"]))
+                self._absorb(dict(cmd=solo["cmd"], rc=solo["rc"], out=solo["out"], err=solo["err"], timeout=False,
+                                  last=res["last"], finished='"t":"stats"' in solo["out"]), label)
+                if res.get("gave_up"):
+                    self.inconclusive.append("%s: more than 40 cases of one shard exceeded the per-case wall-clock budget and "
+                                             "finished alone: the machine is too loaded for this run to decide anything" % label)
             return
         dl = [ln for ln in res["err"].splitlines() if ln.startswith("SCHED-DEADLOCK")]
         if dl:
